@@ -2,6 +2,7 @@ package main
 
 import (
 	"fmt"
+	"github.com/ilius/libgostarcal/utils"
 	"sort"
 	"strconv"
 	"strings"
@@ -278,6 +279,7 @@ func setHandler(args []string) (string, []string) {
 		// after every step every register must hold exactly the reference members (operands unchanged,
 		// results are new sets) and size, listing and membership must agree with each other
 		for r := 0; r < 3; r++ {
+			intListAgrees(regs[r], func(format string, a ...any) { fail(k, op, format, a...) })
 			if got := showTokSet(setToks(regs[r])); got != ref[r].show() || regs[r].Cardinality() != len(ref[r]) {
 				fail(k, op, "afterwards set %d holds %s (size %d), a mathematical set holds %s", r, got, regs[r].Cardinality(), ref[r].show())
 				// resynchronise the reference so that one defect is reported once
@@ -289,6 +291,36 @@ func setHandler(args []string) (string, []string) {
 		}
 	}
 	return strings.Join(outs, ";"), ps.out()
+}
+
+// utils.IntListBySet lists the members of a set of ints: same members, each once
+func intListAgrees(set mapset.Set, fail func(format string, a ...any)) {
+	members := set.ToSlice()
+	want := map[int]bool{}
+	for _, e := range members {
+		v, ok := e.(int)
+		if !ok {
+			return // only defined on sets of ints
+		}
+		want[v] = true
+	}
+	defer func() {
+		if r := recover(); r != nil {
+			fail("IntListBySet panics on a set of ints: %v", r)
+		}
+	}()
+	got := utils.IntListBySet(set)
+	seen := map[int]bool{}
+	for _, v := range got {
+		if !want[v] || seen[v] {
+			fail("IntListBySet lists %v for a set holding %v", got, members)
+			return
+		}
+		seen[v] = true
+	}
+	if len(got) != len(want) {
+		fail("IntListBySet lists %v for a set holding %v", got, members)
+	}
 }
 
 func b2s(b bool) string {
